@@ -69,9 +69,51 @@ def _count_classes(c, acc):
                 _count_classes(v, acc)
 
 
+def operator_pairs(tier):
+    """Operator nestings the generator must keep apart: every depth-2 tree over
+    the FULL operator alphabet (the shared pool's quick tier only has a
+    representative alphabet there), every chain of prefix operators over a
+    plain / post-incremented / post-decremented operand, and every binary
+    operator between a postfix left operand and a prefix chain on the right
+    ('a++ + ++b', 'a - --b', 'a & &b', 'a / *p').  All fully parenthesised in
+    the source: it is the generator that decides which parentheses stay."""
+    import itertools
+
+    from models import expr_model as em
+
+    out = []
+    pre = "typedef int T ; void f ( void ) { "
+    trees = em.trees(2) if tier == "quick" else itertools.chain(em.trees(2), em.trees(3, ops=em.OPS_REP, min_ops=3))
+    for t in trees:
+        out.append(("E2", pre + em.render(t) + " ; }"))
+    prefix = list(em.PREFIX_OPS) + ["sizeof"]
+    bases = ["x", "( x ++ )", "( x -- )"]
+    maxlen = 3 if tier == "quick" else 4
+
+    def chain(ops, base):
+        e = base
+        for op in reversed(ops):
+            e = f"{op} ( {e} )"
+        return e
+
+    for n in range(1, maxlen + 1):
+        for ops in itertools.product(prefix, repeat=n):
+            for b in bases:
+                out.append(("PFX", pre + chain(ops, b) + " ; }"))
+    for bop in em.BINARY_OPS:
+        for n in (1, 2):
+            for ops in itertools.product(prefix, repeat=n):
+                for left in ("a", "( a ++ )", "( a -- )"):
+                    out.append(("BINPFX", pre + f"{left} {bop} ( {chain(ops, 'b')} ) ; }}"))
+    return out
+
+
 def run(tier):
     R = core.Run(PID, tier, "exploration")
     pool = progpool.build_pool(tier)
+    have = {t for _, t in pool}
+    pairs = [(o, t) for o, t in operator_pairs(tier) if t not in have]
+    pool += pairs
     pool.sort(key=lambda x: (len(x[1]), x[1]))  # smallest first => minimal examples
     hashes = set()
     classes = {}
@@ -87,7 +129,10 @@ def run(tier):
     R.set("evaluations", n)
     R.set("distinct_nontrivial", len(hashes))
     R.set("programs", len(pool))
-    R.set("pool_parts", getattr(progpool.build_pool, "sizes", {}))
+    sizes = dict(getattr(progpool.build_pool, "sizes", {}))
+    for o, _ in pairs:
+        sizes[o] = sizes.get(o, 0) + 1
+    R.set("pool_parts", sizes)
     R.set("node_classes_reached", classes)
     R.set("bounds", {"pool": "see pool_parts (TokEx N per context, models, corpus, corpus 1-edits)",
                      "configurations": ["reduce_parentheses=False", "reduce_parentheses=True"]})
